@@ -204,15 +204,19 @@ CHECKS = {
         "stages": [
             st("main", "rel", [1500, 30000], [25, 400]),
             st("dbgassert", "relda", [300, 5000], [20, 200], shards=8),
+            st("cli", "rel", [3, 60], [60, 400], needs_cli=True),
         ],
         "rule": "case = generated dictionary + a history of 0-14 lines (empty lines, empty first line, repeated lines, trailing spaces under "
                 "ignore_space) fed to reset_sentence/tokenize/update_connid_counts on one worker; oracles: both id lists are permutations of "
                 "1..n-1, ordered by (frequency desc, id asc) where frequency is an independent recount of connection-cost evaluations on the "
                 "reference lattice, probability = count/total with the same float expression, the CostEval event log is cross-checked against "
                 "the recount, the listed order is accepted by map_connection_ids_from_iter and the mapped dictionary tokenizes identically. "
+                "Stage cli: the REAL binaries compile -> reorder (stdin lines incl. empty ones) -> map -> tokenize -O detail; the .lmap/.rmap "
+                "files list the ids in the library's order, map accepts them, and the mapped dictionary's output equals the original's. "
                 "Distinct = hash of (dictionary, history).",
         "required_buckets": ["empty_line_in_history", "empty_first_line", "no_line_at_all", "repeated_line", "trailing_spaces_with_ignore_space",
-                             "frequency_ties", "reorder_output_accepted_by_map", "cost_eval_events_equal_recount", "large_id_space_with_ties"],
+                             "frequency_ties", "reorder_output_accepted_by_map", "cost_eval_events_equal_recount", "large_id_space_with_ties",
+                             "cli_pipeline_compile_reorder_map_tokenize", "cli_reorder_input_with_empty_line"],
         "assumptions": ["with ignore_space the histories use dictionaries meeting C12's precondition (where the skip rule is unambiguous)"],
     },
     "C10": {
@@ -258,13 +262,18 @@ CHECKS = {
         "stages": [
             st("main", "rel", [150, 2500], [60, 500]),
             st("dbgassert", "relda", [30, 300], [40, 300], shards=8),
+            st("cli", "rel", [2, 40], [60, 400], needs_cli=True),
         ],
         "rule": "case = trained model (generator of C14) + an operation sequence chosen by the seed over {generate x2, write_model, read_model, "
                 "read_user_lexicon on both sides (before or after a first generation), generate, second write/read}; the seven files "
                 "generated from the in-memory model and from the reloaded one are compared byte for byte (bigram.cost as a sorted "
-                "multiset); generate twice = once; write_model's count = bytes. Distinct = hash of the generated files.",
+                "multiset); generate twice = once; write_model's count = bytes. Stage cli: the REAL `train` and `dictgen` binaries (zstd model "
+                "files on disk, optional user lexicon, --conn-id-info-out) are run twice in separate processes on the same inputs: all seven "
+                "files agree between the two runs and with files generated in-process without any write/read. "
+                "Distinct = hash of the generated files.",
         "required_buckets": ["training_succeeded", "generated_twice", "in_memory_vs_reloaded_compared", "second_round_trip_compared",
-                             "user_lexicon_added_after_a_generation", "user_lexicon_added_before_first_generation"],
+                             "user_lexicon_added_after_a_generation", "user_lexicon_added_before_first_generation",
+                             "cli_pipeline_train_dictgen_twice", "cli_files_equal_in_process_files"],
         "assumptions": ["user entries are not part of the stored model (the CLI re-reads them), so user.csv is compared only when both sides read the same user lexicon"],
     },
     "C16": {
